@@ -81,4 +81,9 @@ def ringVal (xs : List Rat) (j : Nat) : Rat := xs.getD (j % xs.length) 0
 /-- cyclic shift of a list by `s` -/
 def roll (xs : List Rat) (s : Nat) : List Rat := tab xs.length fun j => ringVal xs (j + s)
 
+/-- the cells of the grid line through `i` along `ax`, component `c` -/
+def lineCells (f : Fld) (ax : Nat) (i : List Nat) (c : Nat) : List (Rat × Bool) :=
+  tab (f.mesh.nAt ax) fun j => ((f.data.line ax i j).getD c 0, f.valid.line ax i j)
+
+
 end DFV.C04
